@@ -92,6 +92,33 @@ impl Write for FailingSink {
     }
 }
 
+/// A sink that never fails but takes at most `chunk` bytes per call (the Write contract allows that: pipes,
+/// compressors, line writers do it): what reaches it must not depend on the chunk size.
+pub struct ChunkSink {
+    chunk: usize,
+    pub taken: Vec<u8>,
+}
+
+impl Write for ChunkSink {
+    fn write(&mut self, buf: &[u8]) -> io::Result<usize> {
+        let n = buf.len().min(self.chunk.max(1));
+        self.taken.extend_from_slice(&buf[..n]);
+        Ok(n)
+    }
+    fn flush(&mut self) -> io::Result<()> {
+        Ok(())
+    }
+}
+
+fn corpus_attrs() -> Attributes {
+    let mut attrs = Attributes::new();
+    attrs.insert("Name".into(), Variant::String("value".into()));
+    attrs.insert("Frame".into(), Variant::CFrame(CFrame::new(Vector3::new(1.0, 2.0, 3.0), Matrix3::identity())));
+    attrs.insert("Seq".into(), Variant::NumberSequence(NumberSequence { keypoints: vec![NumberSequenceKeypoint::new(0.0, 1.0, 0.0), NumberSequenceKeypoint::new(1.0, 0.0, 0.0)] }));
+    attrs.insert("Font".into(), Variant::Font(Font::default()));
+    attrs
+}
+
 fn corpus_dom() -> (WeakDom, Vec<Ref>) {
     let mut dom = WeakDom::new(InstanceBuilder::new("DataModel"));
     let root = dom.root_ref();
@@ -157,11 +184,7 @@ pub fn corpus() -> Vec<(String, Vec<u8>)> {
             out.push(("xml_all".to_string(), buf));
         }
     }
-    let mut attrs = Attributes::new();
-    attrs.insert("Name".into(), Variant::String("value".into()));
-    attrs.insert("Frame".into(), Variant::CFrame(CFrame::new(Vector3::new(1.0, 2.0, 3.0), Matrix3::identity())));
-    attrs.insert("Seq".into(), Variant::NumberSequence(NumberSequence { keypoints: vec![NumberSequenceKeypoint::new(0.0, 1.0, 0.0), NumberSequenceKeypoint::new(1.0, 0.0, 0.0)] }));
-    attrs.insert("Font".into(), Variant::Font(Font::default()));
+    let attrs = corpus_attrs();
     let mut buf = Vec::new();
     attrs.to_writer(&mut buf).unwrap();
     out.push(("attr".to_string(), buf));
@@ -248,6 +271,39 @@ pub fn run_schedules(input: &mut dyn io::BufRead, out: &mut dyn Write) {
 pub fn run_sinkfail(out: &mut dyn Write, step: usize) {
     install_hook();
     let (dom, roots) = corpus_dom();
+    // partial writes: a sink that takes 1, 2, 3, 7 or 64 bytes per call receives exactly the bytes a sink that takes
+    // everything receives
+    let attrs = corpus_attrs();
+    for (target, data) in corpus() {
+        if target.ends_with("_all") {
+            continue;
+        }
+        for chunk in [1usize, 2, 3, 7, 64] {
+            let id = format!("sink:{}:partial{}", target, chunk);
+            if !start(out, &id) {
+                continue;
+            }
+            LAST_PANIC.with(|p| p.borrow_mut().clear());
+            let mut sink = ChunkSink { chunk, taken: Vec::new() };
+            let r = catch_unwind(AssertUnwindSafe(|| -> Result<(), String> {
+                match target.as_str() {
+                    "bin_none" => rbx_binary::Serializer::new().compression_type(CompressionType::None).serialize(&mut sink, &dom, &roots).map_err(|e| e.to_string()),
+                    "bin_lz4" => rbx_binary::Serializer::new().compression_type(CompressionType::Lz4).serialize(&mut sink, &dom, &roots).map_err(|e| e.to_string()),
+                    "bin_zstd" => rbx_binary::Serializer::new().compression_type(CompressionType::Zstd).serialize(&mut sink, &dom, &roots).map_err(|e| e.to_string()),
+                    "attr" => attrs.to_writer(&mut sink).map_err(|e| format!("{:?}", e)),
+                    _ => rbx_xml::to_writer_default(&mut sink, &dom, &roots).map_err(|e| e.to_string()),
+                }
+            }));
+            let (o, site) = match r {
+                Ok(Ok(())) => ("ok".to_string(), String::new()),
+                Ok(Err(_)) => ("err".to_string(), String::new()),
+                Err(_) => ("panic".to_string(), LAST_PANIC.with(|p| p.borrow().clone())),
+            };
+            let digest = |b: &[u8]| blake3::hash(b).to_hex()[..16].to_string();
+            emit(out, json!({"op": "fault", "ep": id, "kind": "partial", "target": target, "chunk": chunk, "outcome": o, "site": site,
+                             "digest": digest(&sink.taken), "whole_digest": digest(&data), "bytes": sink.taken.len(), "whole_bytes": data.len()}));
+        }
+    }
     for (target, data) in corpus() {
         if target == "attr" {
             continue;
